@@ -229,7 +229,16 @@ func (v *GVPN) Text() string {
 		if r.Filter != nil {
 			fmt.Fprintf(&b, " vpn-filter value %s\n", r.Filter.Name)
 		}
-		fmt.Fprintf(&b, "tunnel-group %s type remote-access\ntunnel-group %s general-attributes\n default-group-policy %s\n", r.TG, r.TG, r.GP)
+		typ := "remote-access"
+		if strings.Contains(r.TG, "tunnel-G2") {
+			// Certificate authenticated LAN-to-LAN peer (the device
+			// shows a multi-line warning when such a group is created).
+			// The type goes with the name, on device and target alike:
+			// changing the type of an existing tunnel-group in place is
+			// outside what the model knows about an ASA.
+			typ = "ipsec-l2l"
+		}
+		fmt.Fprintf(&b, "tunnel-group %s type %s\ntunnel-group %s general-attributes\n default-group-policy %s\n", r.TG, typ, r.TG, r.GP)
 		if len(r.TGAttrs) > 0 {
 			fmt.Fprintf(&b, "tunnel-group %s ipsec-attributes\n", r.TG)
 			for _, a := range r.TGAttrs {
